@@ -187,12 +187,12 @@ pub fn run(tier: Tier, replay: Option<String>) -> i32 {
     let only = std::env::var("VERIF_ONLY").ok();
     let labels: Vec<String> = corpus.entries.iter().map(|e| e.label()).filter(|l| only.as_ref().map(|o| l.contains(o.as_str())).unwrap_or(true)).collect();
     let labels: Vec<String> = labels.into_iter().filter(|l| !corpus.skip_entry.contains(l)).collect();
-    let sup = crate::iso::supervise("C01", tier.as_str(), labels, 16, 24, std::time::Duration::from_secs(tier.pick(180, 1800)), vec![]);
+    let sup = crate::iso::supervise("C01", tier.as_str(), labels, 16, 24, std::time::Duration::from_secs(tier.pick(180, 1800)), vec![("VERIF_WORKER_BUDGET_MIB".into(), "12288".into())]);
     let mut reports: Vec<EntryReport> = sup.reports.iter().map(EntryReport::from_json).collect();
     report_deaths(&mut c, "c01", &sup.deaths);
     // probes: listed findings are excluded by construction above; confirm that each still reproduces
     if only.is_none() && !corpus.probes.is_empty() {
-        let psup = crate::iso::supervise("C01", tier.as_str(), corpus.probes.clone(), 4, 1, std::time::Duration::from_secs(300), vec![("VERIF_PROBE".into(), "1".into())]);
+        let psup = crate::iso::supervise("C01", tier.as_str(), corpus.probes.clone(), 4, 1, std::time::Duration::from_secs(300), vec![("VERIF_PROBE".into(), "1".into()), ("VERIF_WORKER_BUDGET_MIB".into(), "12288".into())]);
         let preports: Vec<EntryReport> = psup.reports.iter().map(EntryReport::from_json).collect();
         report_deaths(&mut c, "c01", &psup.deaths);
         let reproduced: u64 = preports.iter().map(|r| r.known_hits.values().sum::<u64>()).sum::<u64>() + psup.deaths.len() as u64;
